@@ -207,8 +207,14 @@ impl World {
             .max_size(cfg.max)
             .queue_mode(if cfg.lifo { QueueMode::Lifo } else { QueueMode::Fifo })
             .runtime(Runtime::Tokio1);
-        // pool-level timeouts: durations of "task 11" (never used by a per-call get)
-        b = b.timeouts(timeouts_of(cfg.pool_tk, 11));
+        // pool-level timeouts: durations of "task 11" (never used by a per-call get); set as a whole or
+        // through the three individual setters (in an order that depends on the configuration)
+        let pt = timeouts_of(cfg.pool_tk, 11);
+        b = match (cfg.max + cfg.pre + cfg.pool_tk as usize) % 3 {
+            0 => b.timeouts(pt),
+            1 => b.wait_timeout(pt.wait).create_timeout(pt.create).recycle_timeout(pt.recycle),
+            _ => b.recycle_timeout(pt.recycle).create_timeout(pt.create).wait_timeout(pt.wait),
+        };
         for k in 0..cfg.pre {
             b = b.pre_recycle(make_hook(log.clone(), K_PRE, k as u8));
         }
@@ -642,7 +648,12 @@ fn build_table() {
     for code in 0..27i64 {
         for with_rt in [false, true] {
             let log = Arc::new(Log { sh: Mutex::new(Shared::default()), next_oid: AtomicUsize::new(0) });
-            let mut b = Pool::builder(Mgr { log }).max_size(1).timeouts(timeouts_of(code, 0));
+            let pt = timeouts_of(code, 0);
+            let mut b = if code % 2 == 0 {
+                Pool::builder(Mgr { log }).max_size(1).timeouts(pt)
+            } else {
+                Pool::builder(Mgr { log }).max_size(1).wait_timeout(pt.wait).create_timeout(pt.create).recycle_timeout(pt.recycle)
+            };
             if with_rt {
                 b = b.runtime(Runtime::Tokio1);
             }
